@@ -588,6 +588,30 @@ fn check_entry_laws<W: World>(w: &W, r: &mut Run, abs_l: &str, abs_t: &str, kind
 }
 
 /// compare a post state with a pre state, both with the link entry projected away
+/// (uid, gid) of an observed node: "uid=5 gid=6" (disk observer) or "uid: 5, gid: 6" (Memfs dump)
+fn owner_in_desc(desc: &str) -> Option<(u32, u32)> {
+    let num = |key: &str| -> Option<u32> {
+        for sep in ["=", ": "] {
+            let k = format!("{}{}", key, sep);
+            // the first occurrence that is not part of a longer word
+            let mut from = 0;
+            while let Some(i) = desc[from..].find(&k) {
+                let at = from + i;
+                let word_start = at == 0 || !desc.as_bytes()[at - 1].is_ascii_alphanumeric();
+                if word_start {
+                    let digits: String = desc[at + k.len()..].chars().take_while(|c| c.is_ascii_digit()).collect();
+                    if let Ok(n) = digits.parse() {
+                        return Some(n);
+                    }
+                }
+                from = at + k.len();
+            }
+        }
+        None
+    };
+    Some((num("uid")?, num("gid")?))
+}
+
 fn check_untouched(r: &mut Run, op: &str, before: &Obs, after: &Obs, abs_l: &str, abs_t: &str, what: &str) -> bool {
     match diff(&without(before, abs_l), &without(after, abs_l)) {
         None => true,
@@ -747,12 +771,39 @@ pub fn run_case<W: World>(w: &mut W, g: &Group, sp: usize, st: &mut Stats) -> Ve
         if form.starts_with("chown") && w.is_disk() && euid != 0 {
             continue;
         }
-        fresh(w, &mut r);
-        if r.call(op, || act(w.fs())).is_some() {
-            let obs2 = w.observe();
-            if check_untouched(&mut r, op, &obs1, &obs2, &abs_l, &abs_t, form) && obs2.contains_key(&abs_l) {
-                // the target is unchanged, so every link-level fact must still hold
-                check_link_facts(w, &mut r, &format!("{} then query", op), &abs_l, &abs_t, g.kind);
+        // pre 0: straight from S1; pre 1 (chown only): the target itself already carries the requested
+        // owner, the link does not (an implementation that looks at the followed path sees nothing to do)
+        for pre in 0..2 {
+            if pre == 1 && (!form.starts_with("chown") || g.kind == TK::Missing) {
+                continue;
+            }
+            fresh(w, &mut r);
+            let mut base = obs1.clone();
+            if pre == 1 {
+                // an independent step on the target path itself (a non-link), not under test here
+                if w.fs().chown(&abs_t, 5, 6).is_err() {
+                    continue;
+                }
+                base = w.observe();
+                if owner_in_desc(base.get(&abs_l).map(|n| n.desc.as_str()).unwrap_or("")) == Some((5, 6)) {
+                    continue;
+                }
+            }
+            let what = if pre == 1 { format!("chown(target,5,6) then {}", form) } else { form.to_string() };
+            if let Some(res) = r.call(op, || act(w.fs())) {
+                let obs2 = w.observe();
+                let untouched = check_untouched(&mut r, op, &base, &obs2, &abs_l, &abs_t, &what);
+                if form.starts_with("chown") && res.is_ok() {
+                    if let Some(n) = obs2.get(&abs_l) {
+                        if owner_in_desc(&n.desc) != Some((5, 6)) {
+                            r.bad(op, "Ok but the link itself does not have the requested owner", format!("{} = Ok(()) but the link {} is [{}]", what, abs_l, n.desc));
+                        }
+                    }
+                }
+                if pre == 0 && untouched && obs2.contains_key(&abs_l) {
+                    // the target is unchanged, so every link-level fact must still hold
+                    check_link_facts(w, &mut r, &format!("{} then query", op), &abs_l, &abs_t, g.kind);
+                }
             }
         }
     }
@@ -1024,7 +1075,7 @@ pub fn run(ctx: &Ctx) -> i32 {
         ("evaluations", J::i(states)),
         ("distinct_nontrivial", J::i(nontriv.len() as i64)),
         ("rule", J::s(format!(
-            "positions = all {} paths of depth <= {} over names {{a,b}}; targets = positions + root; every feasible (L, T, kind at creation) configuration ({} configurations over {} (L,T) pairs) x 6 spellings of the target = {} states per world, 3 worlds (memfs@/, stdfs@sandbox, memfs@sandbox). Each state: symlink + all queries of the statement + readlink*/entry on every non-link; then 8 follow-up transitions each from a fresh copy of the state (remove, chmod x2, chown x2 without follow, symlink over the link x3). distinct_nontrivial = (L,T) pairs whose relative navigation from dir(L) to T contains '..' or more than one component or is empty (target == dir(link)), i.e. the link is not next to its target.",
+            "positions = all {} paths of depth <= {} over names {{a,b}}; targets = positions + root; every feasible (L, T, kind at creation) configuration ({} configurations over {} (L,T) pairs) x 6 spellings of the target = {} states per world, 3 worlds (memfs@/, stdfs@sandbox, memfs@sandbox). Each state: symlink + all queries of the statement + readlink*/entry on every non-link; then 10 follow-up transitions each from a fresh copy of the state (remove, chmod x2, chown x2 without follow, the same chown x2 after the target itself was given the requested owner, symlink over the link x3). distinct_nontrivial = (L,T) pairs whose relative navigation from dir(L) to T contains '..' or more than one component or is empty (target == dir(link)), i.e. the link is not next to its target.",
             tree::namespace(&NAMES, depth).len(), depth, n, pairs.len(), expect_states
         ))),
         ("per_world", J::obj([
@@ -1046,7 +1097,7 @@ pub fn run(ctx: &Ctx) -> i32 {
         "abs(target) is lexical: go_clean of the spelling (joined onto dir(link) when relative); no path walks through a link except the cyclic kind".to_string(),
         "is_symlink_dir/is_symlink_file are unspecified for targets missing at creation; for a target that is itself a link to a file only is_symlink_dir == false is demanded".to_string(),
         "entry(link) failing for a dangling link is counted, not judged (the statement speaks about entry.follow only)".to_string(),
-        "chmod/chown results (Ok/Err) and their effect on the link itself are not judged, only that nothing but the link changes".to_string(),
+        "chmod results (Ok/Err) and their effect on the link itself are not judged, only that nothing but the link changes; a chown without follow that returns Ok must leave the link itself with the requested owner (also when the target already carries that owner)".to_string(),
         "Stdfs observed on Linux tmpfs, umask 022".to_string(),
     ];
     if euid != 0 {
